@@ -34,6 +34,9 @@ func convURL(fam string, i int) string {
 		return fmt.Sprintf("https://%s/zqs/2014/07/zqname_Part%d.html", pagerHost, i)
 	case "pathslash":
 		return fmt.Sprintf("https://%s/zqs/view/%d/", pagerHost, i)
+	case "queryid":
+		// a second, constant numeric parameter that sorts before the page parameter
+		return fmt.Sprintf("https://%s/zqs/view?id=77&pg=%d", pagerHost, i)
 	default:
 		return fmt.Sprintf("https://%s/zqs/view?pg=%d", pagerHost, i)
 	}
@@ -53,6 +56,8 @@ func convHref(fam string, i int, r int) string {
 			return abs
 		case "datedfile":
 			return fmt.Sprintf("zqname_Part%d.html", i)
+		case "queryid":
+			return fmt.Sprintf("?id=77&pg=%d", i)
 		case "path":
 			return fmt.Sprintf("%d", i) // relative to /zqs/view/<k>
 		case "file":
@@ -206,7 +211,7 @@ func runPager(c Case, e *env) []Event {
 		numbered := algo == "pagenumber" || r.Intn(2) == 0
 		if labels != "none" && k > 1 && labels != "onlynext" {
 			lab := map[string]string{"nextprev": "Prev", "nextprevious": "Previous", "raquo": "« Prev"}[labels]
-			items = append(items, fmt.Sprintf(`<a href="%s">%s</a>`, convHref(fam, k-1, style), lab))
+			items = append(items, fmt.Sprintf(`<a href="%s">%s</a>`, strings.ReplaceAll(convHref(fam, k-1, style), "&", "&amp;"), lab))
 		}
 		if numbered {
 			for i := 1; i <= n; i++ {
@@ -219,7 +224,7 @@ func runPager(c Case, e *env) []Event {
 		}
 		if labels != "none" && k < n {
 			lab := map[string]string{"nextprev": "Next", "nextprevious": "Next", "raquo": "Next »", "onlynext": "Next"}[labels]
-			items = append(items, fmt.Sprintf(`<a href="%s">%s</a>`, convHref(fam, k+1, style), lab))
+			items = append(items, fmt.Sprintf(`<a href="%s">%s</a>`, strings.ReplaceAll(convHref(fam, k+1, style), "&", "&amp;"), lab))
 		}
 		pager = wrapItems(items, wrap, sep)
 		pageURL = convURL(fam, k)
